@@ -23,6 +23,8 @@ RULE = ('block op sequences (validate/get/set/reset/dump) over sequential blocks
 
 # ------------------------------------------------------------------ real code runners
 def mk_block(desc):
+    if desc['kind'] == 'default':
+        return ModbusSequentialDataBlock.create()
     if desc['kind'] == 'seq':
         return ModbusSequentialDataBlock(desc['address'], list(desc['values']))
     return ModbusSparseDataBlock(dict((k, v) for k, v in desc['items']))
@@ -43,7 +45,7 @@ def run_block_ops(desc, ops):
                 outs.append(as_nat_list(b.getValues(op[1], op[2])))
             elif op[0] == 'set':
                 vals = list(op[2])
-                b.setValues(op[1], vals)
+                b.setValues(op[1], vals[0] if len(op) > 3 and op[3] == 'scalar' else vals)
                 # the block must hold its own cells: changing the caller's list afterwards must not reach into it
                 d0 = dump_block(b)
                 for i in range(len(vals)):
@@ -83,6 +85,8 @@ def gen_block(rng):
 
 
 def extent(desc):
+    if desc['kind'] == 'default':
+        return 0, 65535
     if desc['kind'] == 'seq':
         return desc['address'], desc['address'] + len(desc['values']) - 1
     ks = [k for k, _ in desc['items']]
@@ -102,8 +106,11 @@ def gen_ops(rng, desc, n, raw):
             ops.append(['validate', a, cnt])
         elif r < 0.6:
             ops.append(['get', a, cnt])
-        elif r < 0.9:
+        elif r < 0.8:
             ops.append(['set', a, [rng.randrange(0, 65536) for _ in range(max(cnt, 0) if raw else max(cnt, 1))]])
+        elif r < 0.9:
+            # a bare scalar instead of a list (the blocks wrap it): zero is the interesting one
+            ops.append(['set', a, [rng.choice([0, 0, 1, rng.randrange(0, 65536)])], 'scalar'])
         elif r < 0.95:
             ops.append(['reset'])
         else:
